@@ -5,6 +5,7 @@
 //!   record  <cases.ndjson>   <trace.ndjson>            implementation -> specification
 //!   text    <vectors.ndjson>                           print the jq text of each vector
 
+mod conc;
 mod enc;
 mod run;
 
@@ -277,7 +278,7 @@ fn record_one(case: &J) -> J {
     line
 }
 
-fn read_lines(path: &str) -> Vec<String> {
+pub fn read_lines(path: &str) -> Vec<String> {
     let f = std::fs::File::open(path).unwrap_or_else(|e| {
         eprintln!("cannot open {path}: {e}");
         std::process::exit(2)
@@ -310,6 +311,7 @@ fn main() {
             out.flush().unwrap();
             println!("{{\"processed\": {n}, \"bad\": {bad}}}");
         }
+        "conc" => conc::main(&args),
         "text" => {
             for l in read_lines(&args[2]) {
                 let j: J = serde_json::from_str(&l).unwrap();
